@@ -4,7 +4,7 @@
    [holds (cur t) k v] : the abstract map maps k to v.
    Statements only; closed by [exact] of lemmas of ArrLemmas.v. *)
 From Coq Require Import NArith ZArith List.
-From LC Require Import gen.HashGen Core Api InvDefs ArrLemmas Stats InsertLemmas Resize Lazy.
+From LC Require Import gen.HashGen Core Api InvDefs ArrLemmas Stats InsertLemmas Resize Lazy Refine.
 Import ListNotations.
 Local Open Scope N_scope.
 
@@ -283,3 +283,156 @@ Theorem C02_insert_new_key_no_expansion :
   holds (cur t2) k' v' <-> k' = k /\ v' = v \/ k' <> k /\ holds (cur t) k' v').
 Proof. exact uprase_gen_insert_new. Qed.
 Print Assumptions C02_insert_new_key_no_expansion.
+(* ---- generated statements (tools/mkprops.py): the API on settled tables (Refine.v) ---- *)
+(* [good t] = settled, counted, hashpower < 60, lock array <= stripe count, hashpower within the maximum;
+   [immediate mode t] = locked_table mode or maximum hashpower <= log2(stripe count): every doubling is immediate;
+   [evolves t t'] = good t' with equal contents and limits; [esc t] = the run reached a 2^59-bucket table. *)
+
+Theorem C02_insert_family_refines_map :
+  forall (c : config) (hash : N -> N),
+  cfg_ok c ->
+  forall (mode : bool) (t : table) (k : N) (v : Z) (g : Z -> bool -> option (Z * bool)),
+  nothrow c = true ->
+  good c hash t ->
+  immediate c mode t ->
+  forall (t' : table) (r : exn + bool * list rv * (N * N)),
+  uprase_gen c hash mode t k v g = (t', r) ->
+  (forall v0 : Z,
+  holds (cur t) k v0 ->
+  exists b s : N,
+  r = inr (false, log_of g v0 false, (b, s)) /\
+  good c hash t' /\
+  lim_same t t' /\
+  immediate c mode t' /\
+  bhp (cur t') = bhp (cur t) /\
+  upd_holds (cur t) (cur t') k (final_of g v0 false) /\
+  (forall vf : Z,
+  final_of g v0 false = Some vf ->
+  exists e : entry, bget (cur t') b s = Some e /\ ekey e = k /\ eval e = vf)) /\
+  (~ key_in (cur t) k ->
+  esc c hash t \/
+  (exists e : exn, r = inl e /\ exn_ok c true t t' e /\ evolves c hash t t' /\ immediate c mode t') \/
+  (exists b s : N,
+  r = inr (true, log_of g v true, (b, s)) /\
+  good c hash t' /\
+  lim_same t t' /\
+  immediate c mode t' /\
+  bhp (cur t) <= bhp (cur t') /\
+  upd_holds (cur t) (cur t') k (final_of g v true) /\
+  (forall vf : Z,
+  final_of g v true = Some vf ->
+  exists e : entry, bget (cur t') b s = Some e /\ ekey e = k /\ eval e = vf))).
+Proof. exact uprase_gen_good. Qed.
+Print Assumptions C02_insert_family_refines_map.
+
+Theorem C02_insert_family_any_element_type :
+  forall (c : config) (hash : N -> N),
+  cfg_ok c ->
+  forall (mode : bool) (t : table) (k : N) (v : Z) (g : Z -> bool -> option (Z * bool)),
+  good c hash t ->
+  limC c (mhp t) ->
+  forall (t' : table) (r : exn + bool * list rv * (N * N)),
+  uprase_gen c hash mode t k v g = (t', r) -> up_post c hash t k v g t' r.
+Proof. exact uprase_gen_good_capped. Qed.
+Print Assumptions C02_insert_family_any_element_type.
+
+Theorem C02_rebuild_preserves_contents :
+  forall (c : config) (hash : N -> N),
+  cfg_ok c ->
+  forall (auto mode : bool) (t : table) (new_hp : N),
+  good c hash t ->
+  limC c (mhp t) ->
+  let r := cuckoo_expand_simple c hash auto mode t new_hp in
+  (maxed t new_hp -> r = (t, inl EMaxHashpower)) /\
+  (~ maxed t new_hp -> auto = true -> lf_lt_mlf c t = true -> r = (t, inl ELoadFactorTooLow)) /\
+  es_post c hash auto t new_hp r.
+Proof. exact cuckoo_expand_simple_good. Qed.
+Print Assumptions C02_rebuild_preserves_contents.
+
+Theorem C02_rehash_refines :
+  forall (c : config) (hash : N -> N),
+  cfg_ok c ->
+  forall (mode : bool) (t : table) (n : N),
+  good c hash t ->
+  limC c (mhp t) ->
+  forall (t' : table) (r : exn + bool),
+  cuckoo_rehash c hash mode t n = (t', r) ->
+  (r = inr false <-> n = bhp (cur t)) /\
+  (r = inr false -> t' = t) /\
+  (r = inr true ->
+  good c hash t' /\
+  (forall (k : N) (v : Z), holds (cur t') k v <-> holds (cur t) k v) /\
+  lim_same t t' /\ n <= bhp (cur t') /\ rc t' = wrap64 (rc t + 1) /\ ~ maxed t n) /\
+  (forall e : exn,
+  r = inl e ->
+  n <> bhp (cur t) /\
+  exn_ok0 false t e /\
+  e <> ELoadFactorTooLow /\
+  (maxed t n -> t' = t /\ e = EMaxHashpower) /\
+  (destructive c = false -> evolves c hash t t' /\ bhp (cur t') = bhp (cur t))).
+Proof. exact cuckoo_rehash_good. Qed.
+Print Assumptions C02_rehash_refines.
+
+Theorem C02_reserve_refines :
+  forall (c : config) (hash : N -> N),
+  cfg_ok c ->
+  forall (mode : bool) (t : table) (n : N),
+  good c hash t ->
+  limC c (mhp t) ->
+  forall (t' : table) (r : exn + bool),
+  cuckoo_reserve c hash mode t n = (t', r) ->
+  let new_hp := reserve_calc c n in
+  (r = inr false <-> new_hp = bhp (cur t)) /\
+  (r = inr false -> t' = t) /\
+  (r = inr true ->
+  good c hash t' /\
+  (forall (k : N) (v : Z), holds (cur t') k v <-> holds (cur t) k v) /\
+  lim_same t t' /\
+  new_hp <= bhp (cur t') /\
+  rc t' = wrap64 (rc t + 1) /\
+  ~ maxed t new_hp /\ (n + spb c < 2 ^ 64 -> n <= 2 ^ bhp (cur t') * spb c)) /\
+  (forall e : exn,
+  r = inl e ->
+  new_hp <> bhp (cur t) /\
+  exn_ok0 false t e /\
+  e <> ELoadFactorTooLow /\
+  (maxed t new_hp -> t' = t /\ e = EMaxHashpower) /\
+  (destructive c = false -> evolves c hash t t' /\ bhp (cur t') = bhp (cur t))).
+Proof. exact cuckoo_reserve_good. Qed.
+Print Assumptions C02_reserve_refines.
+
+Theorem C02_clear_refines :
+  forall (c : config) (hash : N -> N) (t : table),
+  good c hash t ->
+  good c hash (cuckoo_clear t) /\
+  (forall (k : N) (v : Z), ~ holds (cur (cuckoo_clear t)) k v) /\
+  lim_same t (cuckoo_clear t) /\ bhp (cur (cuckoo_clear t)) = bhp (cur t) /\ tsize (cuckoo_clear t) = 0.
+Proof. exact cuckoo_clear_good. Qed.
+Print Assumptions C02_clear_refines.
+
+Theorem C02_iteration_equals_contents :
+  forall (c : config) (hash : N -> N),
+  cfg_ok c ->
+  forall t : table,
+  good c hash t ->
+  let out := traverse_fwd c t (it_begin c t) (trav_fuel c t) in
+  (forall (k : N) (v : Z), In (RKV k v) out <-> holds (cur t) k v) /\
+  (forall (k : N) (v : Z), In (k, v) (kvs out) <-> holds (cur t) k v) /\
+  NoDup (map fst (kvs out)) /\ length (kvs out) = count_arr c (cur t).
+Proof. exact traverse_fwd_good. Qed.
+Print Assumptions C02_iteration_equals_contents.
+
+Theorem C02_lookup_family_refines_map :
+  forall (c : config) (hash : N -> N) (mode : bool) (t : table) (k : N) (g : Z -> Z * bool),
+  good c hash t ->
+  forall (t' : table) (r : option Z),
+  lookup_fn c hash mode t k g = (t', r) ->
+  good c hash t' /\
+  lim_same t t' /\
+  bhp (cur t') = bhp (cur t) /\
+  (~ key_in (cur t) k /\ r = None /\ t' = t \/
+  (exists v0 : Z,
+  holds (cur t) k v0 /\
+  r = Some v0 /\ upd_holds (cur t) (cur t') k (if snd (g v0) then None else Some (fst (g v0))))).
+Proof. exact lookup_fn_good. Qed.
+Print Assumptions C02_lookup_family_refines_map.
